@@ -376,12 +376,20 @@ def read_lines(path):
         return [l.rstrip("\n") for l in f]
 
 
+SLOW_SKIPPED = [0]
+
+
 def first_diffs(ops, impl, model, view=None, limit=20):
     """compare response streams line by line (after projection by `view`); returns [(line_no, op, impl, model)]"""
     diffs = []
     n = min(len(impl), len(model), len(ops))
     for i in range(n):
         a, b = impl[i], model[i]
+        if a.startswith("~slow "):
+            # the harness measured more real time than its clock normalisations allow for (a loaded machine): the store's own
+            # one-second revalidation and tick windows have moved; the answer is printed but not judged
+            SLOW_SKIPPED[0] += 1
+            continue
         if view is not None:
             pa, pb = view(ops[i], a), view(ops[i], b)
             if pa is None and pb is None:
